@@ -37,12 +37,14 @@ CLAIMED = {
         "main() builds is the exact decoding of the script in execution order with line number = position; in EVERY state reached by successful "
         "steps from the start (induction over the step sequence; rewinds return to such states by C04) the position counter counts the operations "
         "before the program counter, so the marked line is the numbered rendering of the operation the next step fetches, and after the last "
-        "operation nothing is marked. NOT proved: the same invariant across a P2SH section "
-        "(C12_marker_p2sh_section) - decided by correspondence: the real interactive btcdeb driven through a pty (print after every step/rewind; "
+        "operation nothing is marked. Pay-to-script-hash spends (three sections; the redeem script listed is the scriptSig's last push): the "
+        "invariant holds in every state reached by successful steps when the scriptSig consists of data pushes (C12_p2sh_session_invariant), and "
+        "for any scriptSig under the stated premise that the listed script is the one on top of the stack when the scriptSig ends. "
+        "Also decided by correspondence: the real interactive btcdeb driven through a pty (print after every step/rewind; "
         "plain scripts, scriptPubKey and P2SH sections, P2WSH, taproot key path, tapscript with control paths 0..2) vs the model's listing and marked "
         "line, the step/rewind echo, and - on the implementation alone - the marked line vs the operation at the program counter reported by the harness.",
    note=TB + "tools/ptyrun.py (pty driver, print parser) is trusted. Known finding F37 (after a FAILED step pc and marker disagree; the theorems are about successful steps).",
-   technique="Coq proof of the marker invariant by induction over steps (single-script sessions) + pty-driven differential correspondence of listing, marker and echo",
+   technique="Coq proof of the marker invariant by induction over steps (single-script, two-section, pay-to-script-hash and tapscript sessions) + pty-driven differential correspondence of listing, marker and echo",
    ref="DESIGN.md §2 C12"),
  "C15": dict(
    text="Theorems (Properties/C15.v): one interpreter step - any opcode, stack, flags, script version, in the script or through exec - never yields "
